@@ -32,7 +32,7 @@ CHECKS = {
         technique="Lean 4 theorems on the runner-level model (unittest protocol, TestResult, layer loop) + differential correspondence on generated test worlds + trace monitors",
         design="§5 C05"),
     "C12": dict(
-        text="Runner-level Lean model (Model/Proto = unittest 3.12.1 protocol, Model/Result = TestResult, Model/Runner = layer loop, resume, children) tied to the code by running the real runner (CLI, real children) on generated test worlds whose hooks and tests write a pid-tagged trace; every process is compared event by event with the model on this property's projection, and the property's clauses are monitored on the real traces/output. Theorems: after every callback the counters and lists of the model TestResult agree with the callbacks received (C12_step, C12_counts), testsRun equals the started tests (C12_tests_run), the printed summary of a layer equals the truth of its trace (C12_summary, C12_summary_truth). Monitor: 'Ran'/'Total' numbers and the failure/error name lists vs the truth computed from the trace, incl. names only backslashreplace can write, reported by children.",
+        text="Runner-level Lean model (Model/Proto = unittest 3.12.1 protocol, Model/Result = TestResult, Model/Runner = layer loop, resume, children) tied to the code by running the real runner (CLI, real children) on generated test worlds whose hooks and tests write a pid-tagged trace; every process is compared event by event with the model on this property's projection, and the property's clauses are monitored on the real traces/output. Theorems: after every callback the counters and lists of the model TestResult agree with the callbacks received (C12_step, C12_counts), testsRun equals the started tests (C12_tests_run), the printed summary of a layer equals the truth of its trace (C12_summary, C12_summary_truth); for the whole run (Model/Whole: parent and subprocesses composed in Lean, the model's 'Total:' numbers are compared with the real line on every world) the failure list of every process has one entry per failure event and its own errors one per error event (C12_process_counts), and the Total's failures/errors are the events of all processes plus lost children plus import errors (C12_totals_truth); the two known deviations of the Total line are witnessed in the model (C12_D4_witness, C12_D5_witness). Monitor: 'Ran'/'Total' numbers and the failure/error name lists vs the truth computed from the trace, incl. names only backslashreplace can write, reported by children.",
         note='KNOWN-FINDINGs D4 (skipped of children) and D5 (--repeat total)',
         technique="Lean 4 theorems on the runner-level model (unittest protocol, TestResult, layer loop) + differential correspondence on generated test worlds + trace monitors",
         design="§5 C12"),
